@@ -137,36 +137,56 @@ struct Consumed {
     released: Vec<u8>,
     clean_eof: bool,
     err: Option<String>,
+    /// what every read call returned (octet counts), for trace validation; empty for read_to_end
+    reads: Vec<usize>,
+}
+
+/// recorded runs of the real decryptors, validated against AeadStream / CfbMdc by TLC (TraceAead / TraceCfb)
+struct TraceLog {
+    f: std::sync::Mutex<std::io::BufWriter<std::fs::File>>,
+}
+impl TraceLog {
+    fn new(path: &str) -> Self { TraceLog { f: std::sync::Mutex::new(std::io::BufWriter::new(std::fs::File::create(path).expect("trace file"))) } }
+    fn run(&self, init: Value, c: &Consumed) {
+        use std::io::Write;
+        let mut f = self.f.lock().unwrap();
+        let _ = writeln!(f, "{init}");
+        for k in &c.reads { let _ = writeln!(f, "{}", json!({"ev": "out", "k": k})); }
+        let _ = writeln!(f, "{}", if c.clean_eof { json!({"ev": "eof"}) } else { json!({"ev": "err"}) });
+    }
+    fn flush(&self) { use std::io::Write; let _ = self.f.lock().unwrap().flush(); }
 }
 
 /// drive a reader until the first error or end of stream
 fn consume<R: BufRead>(mut r: R, pattern: usize) -> Consumed {
     let mut released = Vec::new();
+    let mut reads: Vec<usize> = Vec::new();
     match pattern {
         0 => match r.read_to_end(&mut released) {
-            Ok(_) => Consumed { released, clean_eof: true, err: None },
-            Err(e) => Consumed { released, clean_eof: false, err: Some(e.to_string()) },
+            Ok(_) => Consumed { released, clean_eof: true, err: None, reads },
+            Err(e) => Consumed { released, clean_eof: false, err: Some(e.to_string()), reads },
         },
         1 | 7 | 4096 => {
             let mut b = vec![0u8; pattern];
             loop {
                 match r.read(&mut b) {
-                    Ok(0) => return Consumed { released, clean_eof: true, err: None },
-                    Ok(k) => released.extend_from_slice(&b[..k]),
-                    Err(e) => return Consumed { released, clean_eof: false, err: Some(e.to_string()) },
+                    Ok(0) => return Consumed { released, clean_eof: true, err: None, reads },
+                    Ok(k) => { reads.push(k); released.extend_from_slice(&b[..k]) }
+                    Err(e) => return Consumed { released, clean_eof: false, err: Some(e.to_string()), reads },
                 }
             }
         }
         _ => loop {
             // BufRead: fill_buf / consume
             let k = match r.fill_buf() {
-                Ok(b) if b.is_empty() => return Consumed { released, clean_eof: true, err: None },
+                Ok(b) if b.is_empty() => return Consumed { released, clean_eof: true, err: None, reads },
                 Ok(b) => {
                     let k = if pattern == 9001 { 1 } else { b.len() };
                     released.extend_from_slice(&b[..k]);
+                    reads.push(k);
                     k
                 }
-                Err(e) => return Consumed { released, clean_eof: false, err: Some(e.to_string()) },
+                Err(e) => return Consumed { released, clean_eof: false, err: Some(e.to_string()), reads },
             };
             r.consume(k);
         },
@@ -204,6 +224,8 @@ pub fn run(cases_path: &str, out_path: &str, tier: &str, seed: u64) {
     let thorough = tier == "thorough";
     let nontrivial = std::sync::atomic::AtomicU64::new(0);
     let patterns: &[usize] = &[0, 1, 7, 4096, 9000, 9001];
+    let trace_v2 = TraceLog::new(&format!("{out_path}.trace_v2.ndjson"));
+    let trace_v1 = TraceLog::new(&format!("{out_path}.trace_v1.ndjson"));
 
     // build each (layer, n, aead) once
     let aeads: Vec<(AeadAlgorithm, &str)> = if thorough {
@@ -297,6 +319,9 @@ pub fn run(cases_path: &str, out_path: &str, tier: &str, seed: u64) {
                                 }
                             });
                             let (ok, why) = verdict(&r, manipulated, &built.inner, false, true);
+                            if let (Out::Ok(Ok(cns)), true, true) = (&r, pat != 0, hs == 0 && *aname == "ocb") {
+                                trace_v2.run(json!({"ev": "init", "n": n, "kind": m["kind"], "a": m["a"], "b": m["b"]}), cns);
+                            }
                             sink.put(rec("c03.v2.stream", cj, ok, "v2_stream", json!({"why": why})));
                         }
                     }
@@ -346,9 +371,14 @@ pub fn run(cases_path: &str, out_path: &str, tier: &str, seed: u64) {
                     }
                 });
                 let (ok, why) = verdict(&r, manipulated, &built.inner, mode == "checkfirst", false);
+                if let (Out::Ok(Ok(cns)), true, true) = (&r, pat != 0 && pat != 1, n < 4000 || ((pat == 4096 || pat == 9000) && ci.as_u64().unwrap_or(0) % 4 == 0)) {
+                    trace_v1.run(json!({"ev": "init", "n": n, "mode": mode, "kind": m["kind"], "a": m["a"], "b": m["b"]}), cns);
+                }
                 sink.put(rec("c03.v1.stream", cj, ok, "v1_stream", json!({"why": why})));
             }
         }
     });
+    trace_v2.flush();
+    trace_v1.flush();
     sink.finish(json!({"cases": cases.len(), "nontrivial": nontrivial.load(std::sync::atomic::Ordering::Relaxed)}));
 }
